@@ -69,7 +69,7 @@ func (p *Ovl) C(arg *int) *erpc.Status { atomic.AddInt64(&c18PushRan, 1); return
 // its disconnect hook runs after the overloader's (same loop, same goroutine).
 type c18Rec struct {
 	mu      sync.Mutex
-	disc    map[string]int
+	disc    map[interface{}]int // by session object (addresses may be shared)
 	pushOK  int64
 	callOK  int64
 	discAll int64
@@ -86,15 +86,15 @@ func (r *c18Rec) PostReadPushHeader(erpc.ReadCtx) *erpc.Status {
 }
 func (r *c18Rec) PostDisconnect(s erpc.BaseSession) *erpc.Status {
 	r.mu.Lock()
-	r.disc[s.RemoteAddr().String()]++
+	r.disc[s]++
 	r.mu.Unlock()
 	atomic.AddInt64(&r.discAll, 1)
 	return nil
 }
-func (r *c18Rec) discOf(addr string) int {
+func (r *c18Rec) discOf(sess interface{}) int {
 	r.mu.Lock()
 	defer r.mu.Unlock()
-	return r.disc[addr]
+	return r.disc[sess]
 }
 
 // c18Conn counts what the server's read loop has consumed: the loop is quiescent (every frame
@@ -313,7 +313,7 @@ func c18NewEnv(cfg overloader.LimitConfig) (e *c18Env, panicked bool) {
 		}
 	}()
 	o := overloader.New(cfg)
-	e = &c18Env{o: o, rec: &c18Rec{disc: map[string]int{}}}
+	e = &c18Env{o: o, rec: &c18Rec{disc: map[interface{}]int{}}}
 	e.srv = erpc.NewPeer(erpc.PeerConfig{}, o, e.rec)
 	e.calls = e.srv.RouteCall(new(C18_Ovl))
 	e.pushes = e.srv.SubRoute("/c18").RoutePush(new(Ovl))
@@ -391,6 +391,26 @@ func c18Pick(ls []*c18Link, k int, pred func(*c18Link) bool) *c18Link {
 	return sel[k%len(sel)]
 }
 
+// c18DupVictim returns a live admitted session whose address a connection that is certain to be
+// refused (limit reached) may share, or nil.
+func c18DupVictim(enabled bool, lim int, links []*c18Link) *c18Link {
+	if !enabled || lim <= 0 {
+		return nil
+	}
+	live := 0
+	var v *c18Link
+	for _, x := range links {
+		if x.open && x.admitted {
+			live++
+			v = x
+		}
+	}
+	if live < lim {
+		return nil
+	}
+	return v
+}
+
 func c18RunConn(line string, f map[string]string, out *hx.Out) (string, bool) {
 	init, _ := strconv.Atoi(f["init"])
 	ops := strings.Split(f["ops"], ",")
@@ -425,7 +445,19 @@ func c18RunConn(line string, f map[string]string, out *hx.Out) (string, bool) {
 		switch op[0] {
 		case 'c':
 			_, now0, tmp0, okc := c18CL(e.o)
-			l := connect(e.cli, e.srv, "")
+			var l *link
+			if victim := c18DupVictim(f["dup"] == "1", lim, links); victim != nil {
+				// this connection is certain to be refused: give it the SAME remote address as a live
+				// admitted session (clients behind one NAT address, unix sockets, net.Pipe): a slot
+				// must still be released only by the session that took it
+				out.Count("conn:dup-address")
+				ca, cb := mem.PairAddr(victim.l.B.RemoteAddr().String(), victim.l.B.LocalAddr().String()+"'")
+				l = &link{CA: ca, CB: cb}
+				l.B, l.StB = e.srv.ServeConn(cb)
+				ca.Close()
+			} else {
+				l = connect(e.cli, e.srv, "")
+			}
 			k := &c18Link{l: l}
 			links = append(links, k)
 			if l.B != nil {
@@ -476,7 +508,7 @@ func c18RunConn(line string, f map[string]string, out *hx.Out) (string, bool) {
 			}
 			res = "d"
 			out.Count("close:" + op[:1])
-			addr := k.l.B.RemoteAddr().String()
+			var addr interface{} = k.l.B
 			switch op[0] {
 			case 'd':
 				k.l.B.Close()
@@ -534,7 +566,7 @@ func c18RunConn(line string, f map[string]string, out *hx.Out) (string, bool) {
 		// exactly-once: every session a close path has finished for has run the hook once
 		for _, x := range links {
 			if x.admitted && !x.open {
-				if c := e.rec.discOf(x.l.B.RemoteAddr().String()); c != 1 {
+				if c := e.rec.discOf(x.l.B); c != 1 {
 					viol(i, "release-once", fmt.Sprintf("disconnect hook ran %d times for one session", c), "c18:release-count")
 				}
 			}
@@ -919,7 +951,7 @@ func c18StressConn(line string, f map[string]string, out *hx.Out) (string, bool)
 					l.B.Close()
 					l.A.Close()
 				} else {
-					addr := l.B.RemoteAddr().String()
+					var addr interface{} = l.B
 					l.A.Close()
 					waitUntil(5*time.Second, func() bool { return e.rec.discOf(addr) >= 1 })
 				}
@@ -1046,7 +1078,7 @@ func c18GenConn(r *hx.R, out *hx.Out) string {
 			ops = append(ops, fmt.Sprintf("u%d", v))
 		}
 	}
-	return fmt.Sprintf("c18conn init=%d ops=%s", init, strings.Join(ops, ","))
+	return fmt.Sprintf("c18conn init=%d dup=%d ops=%s", init, r.Intn(2), strings.Join(ops, ","))
 }
 
 func c18GenConf(r *hx.R) string {
